@@ -250,6 +250,9 @@ class SSHChannel(Generic[AnyStr], SSHPacketHandler):
 
             self._request_waiters = []
 
+        # Requests still queued can't be served once the channel is gone
+        self._request_queue = []
+
         if self._session is not None:
             # pylint: disable=broad-except
             try:
@@ -467,6 +470,10 @@ class SSHChannel(Generic[AnyStr], SSHPacketHandler):
 
     def _report_response(self, result: bool) -> None:
         """Report back the response to a previously issued channel request"""
+
+        if not self._request_queue:
+            # The channel was cleaned up while the request was in progress
+            return
 
         request, _, want_reply = self._request_queue.pop(0)
 
